@@ -250,7 +250,15 @@ class Run:
         )
         out = []
         it = pool.imap_unordered(call_case, [(fn, c, limit) for c in cases], chunksize)
-        for case, res in it:
+        for _ in range(n):
+            try:
+                # a worker that dies (killed from outside, out of memory) loses its task: never wait forever
+                case, res = it.next(timeout=(limit + 120) * max(1, chunksize))
+            except mp.TimeoutError:
+                print(f"HARNESS-ERROR property={self.pid} part={part}: no result within the time limit "
+                      f"(a worker process died or hangs)", flush=True)
+                self.close()
+                raise SystemExit(3) from None
             st["cases"] += 1
             self._consume(fn, mode, part, st, case, res, env)
             if collect:
